@@ -530,39 +530,30 @@ class CallsDriver:
             ops = threads[ti]
 
             def body(sc, i):
-                for k, o in enumerate(ops):
+                def tracer(fn):
                     sc.begin_call(i)
+                    try:
+                        return ("ok", fn())
+                    except S.SimCrash:
+                        sc.rearm(i)
+                        return ("crash", None)
+                    except Exception as e:
+                        return ("exc", e)
+                    finally:
+                        sc.end_call(i)
+
+                for k, o in enumerate(ops):
                     sw0 = sc.switches
                     if o["op"] == "MALFORMED":
                         teams = league.teams_of(o["teams"])
                         call, args, kw = faults.build_call(o["fault"], ctx.cfg["model"], teams)
-
-                        def tr(fn):
-                            try:
-                                return ("ok", fn())
-                            except S.SimCrash:
-                                sc.rearm(i)
-                                return ("crash", None)
-                            except Exception as e:
-                                return ("exc", e)
-
-                        st, val = tr(lambda: faults.invoke(league.model, call, args, kw))
+                        st, val = tracer(lambda: faults.invoke(league.model, call, args, kw))
                         rec = {"op": o, "out": ("rejected", st if st != "exc" else type(val).__name__)}
                     else:
-                        def tracer(fn):
-                            try:
-                                return ("ok", fn())
-                            except S.SimCrash:
-                                sc.rearm(i)
-                                return ("crash", None)
-                            except Exception as e:
-                                return ("exc", e)
-
                         rec = exec_call(ctx, league, o, tracer)
                         if rec["out"][0] == "crash":
                             for nm in flat(o["teams"]):
                                 restore_player(ctx, league, nm, "rating")
-                    sc.end_call(i)
                     rec["switched"] = sc.switches - sw0
                     records[i].append(rec)
 
